@@ -57,4 +57,66 @@ C17_SAMPLE = dict(
             ("thin must be set", 5), ("model must be one of", 6)],
 )
 
-ALL = [C16_FILTER, C17_SAMPLE]
+# ---- C10: batchie.core.ThetaHolder.  A holder object is a value (class id, attribute values) of type pyobj (Model/Thetas.v).
+_OBJ, _THETA = "(pyobj P S)", "(theta P S)"
+_C10 = dict(
+    file="src/batchie/core.py", cls="ThetaHolder", out="SrcThetas.v", imports="Model.Thetas",
+    # the two instance attributes (set in __init__) are the two fields of the model's holder
+    fields={"thetas": (_OBJ, "list " + _THETA, "attr_thetas {obj}", "set_attr_thetas {obj} {val}"),
+            "_n_thetas": (_OBJ, "Z", "attr_n_thetas {obj}", "set_attr_n_thetas {obj} {val}")},
+)
+_LEN = ("len(__l)", "Z.of_nat (length {l})", "Z")
+# property access h.n_thetas runs the translated property ThetaHolder.n_thetas
+_N_THETAS = ("__h.n_thetas", "!src_n_thetas P S {h}", "Z", {"h": _OBJ})
+_TYPE_NE = ("type(__a) != type(__b)", "negb (py_class {a} =? py_class {b})", "bool", {"a": _OBJ, "b": _OBJ})
+
+C10_INIT = dict(
+    _C10, func="__init__", name="src_init", pyparams=["self", "n_thetas"],     # (*args, **kwargs are not read)
+    params=[("P", "Type"), ("S", "Type"), ("self", _OBJ), ("n_thetas", "Z")], returns=_OBJ, vars={},
+    implicit_return="{self}",
+)
+C10_N_THETAS = dict(
+    _C10, func="n_thetas", name="src_n_thetas", pyparams=["self"],
+    params=[("P", "Type"), ("S", "Type"), ("self", _OBJ)], returns="Z", vars={},
+)
+C10_GET = dict(
+    _C10, func="get_theta", name="src_get_theta", pyparams=["self", "step_index"],
+    params=[("P", "Type"), ("S", "Type"), ("self", _OBJ), ("step_index", "Z")], returns=_THETA, vars={},
+    prims=[_LEN, ("__l[__i]", "!list_get {l} {i}", _THETA, {"l": "list " + _THETA, "i": "Z"})],
+    raises=[("step_index out of bounds", 2)],
+)
+C10_ADD = dict(
+    _C10, func="add_theta", name="src_add_theta", pyparams=["self", "theta"],
+    params=[("P", "Type"), ("S", "Type"), ("self", _OBJ), ("theta", _THETA)], returns=_OBJ, vars={},
+    prims=[_LEN, _N_THETAS],
+    raises=[("Cannot add more samples to the results object", 1)],
+    implicit_return="{self}",
+)
+C10_IS_COMPLETE = dict(
+    _C10, func="is_complete", name="src_is_complete", pyparams=["self"],
+    params=[("P", "Type"), ("S", "Type"), ("self", _OBJ)], returns="bool", vars={},
+    prims=[_LEN, _N_THETAS],
+)
+C10_COMBINE = dict(
+    _C10, func="combine", name="src_combine", pyparams=["self", "other"],
+    params=[("P", "Type"), ("S", "Type"), ("self", _OBJ), ("other", _OBJ)], returns=_OBJ,
+    vars={"n_thetas": "Z", "result": _OBJ},
+    prims=[_TYPE_NE, _N_THETAS,
+           # ThetaHolder(n): a new instance of class 0 (ThetaHolder itself) initialised by the translated __init__
+           ("ThetaHolder(__n)", "!src_init P S (py_blank 0) {n}", _OBJ, {"n": "Z"})],
+    raises=[("Cannot combine with different type", 6)],
+)
+C10_CONCAT = dict(
+    _C10, func="concat", name="src_concat", pyparams=["cls", "instances"], unused_params=["cls"],
+    params=[("P", "Type"), ("S", "Type"), ("instances", "list " + _OBJ)], returns=_OBJ,
+    vars={"first": _OBJ, "instance": _OBJ},
+    prims=[_LEN, _TYPE_NE,
+           ("__l[1:]", "tl {l}", "list " + _OBJ, {"l": "list " + _OBJ}),
+           ("__l[__i]", "!list_get {l} {i}", _OBJ, {"l": "list " + _OBJ, "i": "Z"}),
+           # a.combine(b) runs the translated method ThetaHolder.combine
+           ("__a.combine(__b)", "!src_combine P S {a} {b}", _OBJ, {"a": _OBJ, "b": _OBJ})],
+    raises=[("Cannot concatenate an empty list of ThetaHolder", 3), ("Cannot concatenate different types of ThetaHolder", 7)],
+)
+
+ALL = [C16_FILTER, C17_SAMPLE,
+       C10_INIT, C10_N_THETAS, C10_GET, C10_ADD, C10_IS_COMPLETE, C10_COMBINE, C10_CONCAT]
